@@ -775,7 +775,7 @@ func init() {
 		Level: "exploration",
 		Cases: func(tier string) int {
 			if tier == "thorough" {
-				return 6000000
+				return 3000000
 			}
 			return 150000
 		},
